@@ -82,7 +82,12 @@ def query_lines(p, rng, n_filters=2, dirs=(0, 1, 2, 3), unks=(0, 1, 2, 3), flink
     def short():        # k % 5 == 2 : the adapter passes a NEW callable object for each call
         r = rng.getrandbits(63)
         return str(r - r % 5 + 2)
-    masks = ["-"] + [str(rng.getrandbits(64)) for _ in range(n_filters)] + ["0", str(2 ** 64 - 1), short(), short(), short()]
+    def plain():        # k % 7 == 3 : plain functions without closure sharing ONE code object (differing in defaults only)
+        r = rng.getrandbits(63)
+        r = r - r % 7 + 3
+        return str(r + 7 if r % 5 == 2 else r)
+    masks = ["-"] + [str(rng.getrandbits(64)) for _ in range(n_filters)] + ["0", str(2 ** 64 - 1), short(), short(), short(),
+                                                                             plain(), plain()]
     out = []
     for v in p.verts():
         if not flinks:
@@ -124,6 +129,7 @@ class QueryBase(Check):
             yield lines, outs, p
 
     def batches(self, tier, rng, real):
+        real.inner.plain_filters = True      # no faults and no pickling in these scripts
         for lines, outs, pool in self.worlds(tier, rng, real):
             qs = query_lines(pool, rng, flinks=self.flinks)
             cap = 400 if tier == "quick" else 1500
@@ -333,6 +339,10 @@ class C05(Check):
             a, b = rng.getrandbits(62), rng.getrandbits(62)
             lines.append("nbrs %s 1 1 %d" % (v, a - a % 5 + 2))
             lines.append("nbrs %s 1 1 %d" % (v, b - b % 5 + 2))
+            # two different PLAIN functions compiled from the same code (k % 7 == 3; defaults differ), back to back
+            c, d = rng.getrandbits(62), rng.getrandbits(62)
+            for k in (c - c % 7 + 3, d - d % 7 + 3):
+                lines.append("nbrs %s 1 1 %d" % (v, k + 7 if k % 5 == 2 else k))
         return lines
 
     def history(self, rng, real, length, fresh_at=None):
@@ -389,8 +399,10 @@ class C05(Check):
                 aud = self.audit(real, p2, rng)
                 outs += [real.step(l) for l in aud]
                 yield sc + warm + [op] + aud, outs
+        real.inner.plain_filters = True
         for _ in range(1000 if quick else 8000):
             yield self.history(rng, real, rng.randint(3, 14 if quick else 40))
+        real.inner.plain_filters = False
         # process boundary: pickle with warm caches, load in a fresh interpreter, query with caching on
         for _ in range(4 if quick else 60):
             v = self.fresh_roundtrip(rng, real)
@@ -445,6 +457,7 @@ class C05(Check):
 
     def fresh_roundtrip(self, rng, real):
         from edgegraph.output import nrpickler
+        real.inner.plain_filters = False     # these worlds are pickled with warm memos (keys hold the filter objects)
         lines, outs = self.history(rng, real, rng.randint(3, 10))
         inner = real.inner
         p = gen.Pool()
